@@ -21,6 +21,9 @@ fn check(id: &str, tier: Tier) -> i32 {
     match id {
         "C01" => props::grouping::check(Which::C01, tier),
         "C03" => props::grouping::check(Which::C03, tier),
+        "C06" => props::c06::check(tier),
+        "C13" => props::c13::check(tier),
+        "C14" => props::c14::check(tier),
         "C17" => props::c17::check(tier),
         _ => {
             eprintln!("unknown property {}", id);
@@ -33,6 +36,9 @@ fn replay(id: &str, f: &Path) -> i32 {
     match id {
         "C01" => props::grouping::replay(Which::C01, f),
         "C03" => props::grouping::replay(Which::C03, f),
+        "C06" => props::c06::replay(f),
+        "C13" => props::c13::replay(f),
+        "C14" => props::c14::replay(f),
         "C17" => props::c17::replay(f),
         _ => 2,
     }
